@@ -78,6 +78,19 @@ def mk(reqs, *, lookahead=0, workers=1, room=None, split="one", apps=None, adj=N
                 client.append(["send", b[1:]])
             elif b:
                 client.append(["send", b])
+    elif split == "bodyhead":
+        # the body of each request travels with the head of the next one (a client that waits for the interim response
+        # of an expecting request, then sends the body and at once the next head)
+        pending = b""
+        for r, (h, b) in zip(reqs, parts):
+            client.append(["send", pending + h])
+            if r["k"] in waits:
+                if read_before_await:
+                    client.append(["readall"])
+                client.append(["await100", sum(1 for w in waits if w <= r["k"])])
+            pending = b
+        if pending:
+            client.append(["send", pending])
     elif split == "joinheads":
         # everything up to and including the head of the first waiting request arrives in one read
         buf = b""
